@@ -350,6 +350,8 @@ def cases(tier, seed, spec):
     yield {'kind': 'siblings', 'n': 0}
     yield {'kind': 'siblings', 'n': 1}
     yield from size_sweep(tier)
+    # beyond the 4 300-digit limit of int <-> str conversion (14 285 bits) on the property axis
+    yield from (c for c in gen.giant(seed, 4 if tier == 'quick' else 12, only='wide') if 14300 < len(c['properties']) < 20000)
     # (contexts of the harness' own user subclass cannot be unpickled in the fresh child interpreters)
     yield from (c for c in gen.ctx_stream(tier, seed, scale=.35 if tier == 'quick' else .3, with_wide=True)
                 if not c.get('subclass'))
@@ -484,11 +486,50 @@ def run_siblings(concepts, case, spec):
                 break
 
 
+def run_giant(concepts, case, spec):
+    """Tens of thousands of members on one axis: every medium once, the reloaded triple only (the
+    structural judgement of such lattices is the business of the lattice checks)."""
+    import io
+    C = concepts.Context
+    ctx = common.build_or_skip(concepts, case)
+    if ctx is None:
+        return
+    sh = attach.shadow_of(ctx)
+    COL.count('giant_axis_cases')
+    lat = common.get_lattice(ctx) if len(ctx.objects) <= 64 else None
+    for proto in range(6):
+        for what, obj in (('context', ctx),) + ((('pair', (ctx, lat)),) if lat is not None and lat is not RAISED else ()):
+            COL.count('medium_pickle')
+            try:
+                blob = pickle.dumps(obj, protocol=proto)
+                back = pickle.loads(blob)
+            except Exception as e:
+                COL.count('judged_unpickled')
+                COL.violation('pickle', f'pickle-{what}:giant-axis-raised-{type(e).__name__}', 'a round trip', repr(e)[:300],
+                              {'protocol': proto, 'shape': [sh.n, sh.m]})
+                continue
+            COL.count('judged_unpickled')
+            same_triple(f'pickle-{what}-giant', back if what == 'context' else back[0], sh)
+    d = call(ctx.todict)
+    if d is not RAISED:
+        same_triple('fromdict-giant', call(C.fromdict, d), sh)
+    buf = io.StringIO()
+    if call(ctx.tojson, buf) is not RAISED:
+        buf.seek(0)
+        same_triple('fromjson-giant', call(C.fromjson, buf), sh)
+    text = call(ctx.tostring, 'python-literal')
+    if text is not RAISED:
+        same_triple('literal-giant', call(C.fromstring, text, 'python-literal'), sh)
+    COL.nontrivial(sh.key(), 'giant')
+
+
 def run_case(concepts, case, spec):
     if case.get('kind') == 'siblings':
         return run_siblings(concepts, case, spec)
     if case.get('kind') == 'same-labels':
         return run_same_labels(concepts, case, spec)
+    if case['fam'].startswith('HUGEGIANT'):
+        return run_giant(concepts, case, spec)
     C = concepts.Context
     cap = CAP[spec['tier']]
     work = spec['workdir']
